@@ -50,8 +50,37 @@ def run(ctx):
             extra.append((substitute(s, w), w))
         except Exception:
             pass
+    # every schema a declaration chain can build is declarable too — satisfiable or not, in any declaration order
+    from .. import gen_chain as GC
+    from .C11 import UNIVERSE
+    import itertools
+    chained = []
+    for _ in range(ctx.n(1500, 12000)):
+        facade, ops = GC.gen_chain(ctx.rnd, 4)
+        cur = getattr(schema, facade)
+        try:
+            for op in ops:
+                cur = GC.apply_real(cur, op)
+            chained.append((cur, None))
+        except Exception:
+            pass
+    for facade, u in UNIVERSE.items():
+        for value in u["values"]:
+            for combo in itertools.permutations(u["ops"], 2):
+                if combo[0][0] == combo[1][0]:
+                    continue
+                cur = getattr(schema, facade)
+                try:
+                    if value is not None:
+                        cur = cur(value)
+                    for m, a in combo:
+                        cur = getattr(cur, m)(*a)
+                    chained.append((cur, None))
+                except Exception:
+                    pass
+    ctx.count("schemas_from_declaration_chains", len(chained))
     reqs, info = [], []
-    for s, w in pairs + extra:
+    for s, w in pairs + extra + chained:
         nested = len(rebuild.subschemas(s)) > 1
         ctx.case(repr(s), nested)
         if has_nonfinite(s):
